@@ -388,3 +388,44 @@ loop('PartFlowController.waiting_for_part_start_time', 1, 'for d in self._downst
           f'(min_wait_start == float("inf")) == all(isnone({DS_W}) for j in range(k))',
       'guard_set': 'self._recursion_prevention'},
      modifies=[], index='k')
+
+# --------------------------------------------------------------------------- groups: space notifications (wake-up side, C03)
+# A group forwards "space became available" from its exit to every device feeding one of its paths:
+#   downstream of a path frees up  -> GroupPath.space_available_downstream -> the group's output device
+#   -> notifies its own upstreams (the last devices of the group);  when the group's first devices free up they call
+#   GroupInput.space_available_downstream -> GroupInput.notify_upstream_of_available_space -> every path of the group
+#   -> each path notifies its own upstreams.
+UPSTREAMS_OK = ('self._upstream is not None and alive(self._upstream) and '
+                'all(u is not None and alive(u) and u is not self for u in self._upstream)')
+for c_ in ('GroupPath', 'GroupOutput'):
+    invariant(c_, 'upstream_list_exists', UPSTREAMS_OK)
+contract('PartFlowController.notify_upstream_of_available_space@Group', props=['C03', 'C08'], for_cls=['GroupPath', 'GroupOutput'],
+         args={}, ensures={'every_upstream_is_notified_once_in_order': NOTIFIED_ALL}, modifies=NOTIFY_MOD)
+contract('GroupOutput.space_available_downstream', props=['C03', 'C08'], args={},
+         ensures={'notification_is_forwarded_to_every_upstream_once_in_order': NOTIFIED_ALL}, modifies=NOTIFY_MOD)
+# a path asks the group's exit device; seen from the path this is one external call on that device
+extern('GroupOutput.space_available_downstream', params=[], always=True,
+       note='C03/C08 GroupOutput.space_available_downstream: notifies every upstream of the group\'s exit device')
+contract('GroupPath.space_available_downstream', props=['C03', 'C08'], args={},
+         ensures={'forwarded_to_the_exit_device_of_the_group':
+                      'trace_len() == old(trace_len()) + 1 and trace_kind(old(trace_len())) == fn_id("space_available_downstream") '
+                      'and trace_recv(old(trace_len())) is old(self._group._output_device)'},
+         modifies=['$trace'])
+# the entry device asks every path of the group, in order; each such request is one external call on that path
+extern('GroupPath.notify_upstream_of_available_space', params=[],
+       note='C03/C08 PartFlowController.notify_upstream_of_available_space@Group: the path notifies each of its upstreams')
+extern('PartFlowController.notify_upstream_of_available_space', params=[], always=True,
+       note='C03/C08 PartFlowController.notify_upstream_of_available_space@Group: the path notifies each of its upstreams')
+GI_ALL = ('trace_len() == old(trace_len()) + old(len(self._group._group_paths)) and '
+          'all(trace_kind(old(trace_len()) + j) == fn_id("notify_upstream_of_available_space") and '
+          '    trace_recv(old(trace_len()) + j) is old(self._group._group_paths[j]) '
+          '    for j in range(old(len(self._group._group_paths))))')
+contract('GroupInput.notify_upstream_of_available_space', props=['C03', 'C08'], args={},
+         ensures={'every_path_of_the_group_is_asked_once_in_order': GI_ALL}, modifies=['$trace'])
+loop('GroupInput.notify_upstream_of_available_space', 1, 'for gp in self._group._group_paths',
+     {'asked_so_far': 'trace_len() == at_loop_entry(trace_len()) + k and '
+                      'all(trace_kind(at_loop_entry(trace_len()) + j) == fn_id("notify_upstream_of_available_space") and '
+                      '    trace_recv(at_loop_entry(trace_len()) + j) is self._group._group_paths[j] for j in range(k))'},
+     modifies=['$trace'], index='k')
+contract('GroupInput.space_available_downstream', props=['C03', 'C08'], args={},
+         ensures={'every_path_of_the_group_is_asked_once_in_order': GI_ALL}, modifies=['$trace'])
